@@ -4,6 +4,25 @@ from vlib.mir import callee_name, op_local, strip_generics
 from rules.send import _root_local
 
 
+def rule_inproc_unbounded(ctx, cfg, F):
+    R = ctx.rule("INPROC-UNBOUNDED", "every queue the in-process backend creates is unbounded (crossbeam_channel::unbounded): a send, and the connection notification of a one-shot "
+                 "server, never wait for the other side -- a client can connect, send and leave before accept() is called, as on the OS transport")
+    n = 0
+    for f in sorted(F.fns.values(), key=lambda x: x.path):
+        if not f.path.startswith("platform::inprocess") or f.file.endswith("test.rs"):
+            continue
+        for b, t in f.calls():
+            nm = strip_generics(callee_name(t))
+            if nm in ("crossbeam_channel::unbounded", "crossbeam_channel::bounded", "std::sync::mpsc::sync_channel", "std::sync::mpsc::channel", "crossbeam_channel::after", "crossbeam_channel::never"):
+                n += 1
+                if nm in ("crossbeam_channel::unbounded", "std::sync::mpsc::channel"):
+                    R.ok("%s creates an unbounded queue" % f.path, f.loc(b), cfg)
+                else:
+                    R.violate("%s:bounded-queue" % strip_generics(f.path), "%s creates a queue with %s: the sending side (a client's connect or send) blocks until the receiving side takes the item, "
+                              "so a client can no longer connect and send before the server accepts" % (f.path, nm), f.path, f.loc(b), config=cfg)
+    R.count("queue_creations[%s]" % cfg, n)
+
+
 def rule_oss_own(ctx, cfg, F, backend):
     R = ctx.rule("OSS-OWN", "the rendezvous resources are RAII-owned by the server value (descriptor closed by Drop, directory held as a TempDir) and accept() consumes the server "
                  "by value at both layers, so every exit of accept releases them; in-process: accept removes the registry entry on every normal path")
